@@ -118,6 +118,16 @@ class Model(CallsMixin, BuiltinsMixin):
         sym = ARITH.get(type(op))
         if sym is None:
             return TOP()
+        if sym == '-' and isinstance(a.src, tuple) and a.src and \
+                a.src[0] == 'cumsum' and a.src == b.src:
+            # total - prefix sums of one non-negative array: the tail sums
+            # come out with the absolute error of the TOTAL
+            self.site('G-cancel', node, 'violation',
+                      'a tail sum is formed as the difference of two prefix '
+                      'sums of the same non-negative array: its error is of '
+                      'the order of the rounding of the total, so tails far '
+                      'below the total (the accuracy budget e**2) are not '
+                      'resolved; accumulate from the small end instead')
         # python numbers
         if is_num(a) and is_num(b):
             return self.num_binop(sym, a, b, node, env)
@@ -617,6 +627,15 @@ class Model(CallsMixin, BuiltinsMixin):
     # ------------------------------------------------------------------
     def compare(self, op, a, b, node):
         I = self.I
+        for x, y in ((a, b), (b, a)):
+            if x.k == 'int' and x.note == 'mask-size' and y.has_const() and \
+                    y.c == 0 and isinstance(op, (ast.Eq, ast.NotEq, ast.Gt,
+                                                 ast.Lt, ast.LtE, ast.GtE)):
+                self.site('K-empty', node, 'violation',
+                          'emptiness of a selection is tested through the '
+                          'SIZE of a boolean mask: the size is the number of '
+                          'samples, not the number of selected ones (use '
+                          '.sum() / .any())')
         if isinstance(op, (ast.Is, ast.IsNot)):
             pos = isinstance(op, ast.Is)
             if b.k == 'none' or a.k == 'none':
@@ -762,11 +781,15 @@ class Model(CallsMixin, BuiltinsMixin):
             return INT(len(base.dims))
         if attr == 'size':
             if base.dims is None or any(d is None for d in base.dims):
-                return INT()
-            p = ONE
-            for d in base.dims:
-                p = p * d
-            return INT(p)
+                r = INT()
+            else:
+                p = ONE
+                for d in base.dims:
+                    p = p * d
+                r = INT(p)
+            if base.dt == 'b' and base.idx != 'where':
+                r.note = 'mask-size'
+            return r
         if attr == 'real':
             return base.copy()
         if attr == 'dtype':
@@ -789,6 +812,8 @@ class Model(CallsMixin, BuiltinsMixin):
         """numpy indexing  base[idx]  -> abstract array / scalar."""
         if base.dims is None:
             r = ARR(None, base.dt, org=base.org, taint=base.taint)
+            if idx.k == 'slice' and base.note in ('distinct', 'stacked'):
+                r.note = base.note          # a row subset
             return r
         if base.dt == 'o':
             t = TOP('object-array element')
@@ -949,6 +974,15 @@ class Model(CallsMixin, BuiltinsMixin):
         r.deg = base.deg
         r.nonneg = base.nonneg
         r.cnt = base.cnt
+        if isinstance(base.src, tuple) and base.src and \
+                base.src[0] == 'cumsum':
+            r.src = base.src
+        if base.note in ('distinct', 'stacked') and not adv and comps and \
+                comps[0].k == 'slice' and all(
+                    c.k == 'slice' and all(x is None or x.k == 'none'
+                                           for x in c.items)
+                    for c in comps[1:]):
+            r.note = base.note       # a row subset keeps the property
         if isinstance(base.delta, tuple) and not adv and \
                 base.delta[0] in axmap and base.delta[1] in axmap:
             r.delta = (axmap[base.delta[0]], axmap[base.delta[1]])
@@ -1076,6 +1110,15 @@ class Model(CallsMixin, BuiltinsMixin):
         """x[idx] = v : the value must broadcast into the selected region."""
         if region is None:
             return
+        # kind: a float stored into an integer array is truncated silently
+        if base.k == 'arr' and base.dt == 'i' and (
+                (v.k == 'float') or (v.k == 'arr' and v.dt == 'f')):
+            self.site('S-kind', st, 'violation',
+                      'a float value is stored into an integer array: NumPy '
+                      'truncates it silently')
+        elif base.k == 'arr' and base.dt in ('i', 'f') and \
+                v.k in ('int', 'float', 'bool', 'arr'):
+            self.site('S-kind', st, 'ok')
         if region.k != 'arr':
             # scalar slot
             if v.k == 'arr' and v.dims is not None and len(v.dims) >= 1:
